@@ -11,9 +11,27 @@ all calls made, file not yet closed; n = null: the write completes).  Checked pe
   (a2) the error class agrees with the model's load_file / load_file_cur under the AtClose policy
        (Model/Store.v crash_disk), which is thereby validated on every run.
 Under an eager-flush policy the marker-first order is unsafe (Props/C19.v: C19_eager_refuted); the
-model's Eager prediction was checked by hand against a writer that flushes after every dataset write."""
+model's Eager prediction was checked by hand against a writer that flushes after every dataset write.
+
+Kind `cli_kill` -- the same question asked of the WRITER PROCESS the property's anchors name, the command
+`gambit signatures create -k K -p PREFIX -o OUT [-i IDS] [-m META] FILES...` as a whole (property only, no
+model tie: the theorems speak about one dump_signatures call, the command may do anything with OUT before
+it).  The real click command runs in a forked child (own process group) on FASTA files the harness wrote;
+the child counts two classes of events in its main process and dies (os._exit or SIGKILL to itself, then
+the whole group is killed) immediately BEFORE the j-th event of one class:
+  calc   entry of calc_file_signatures, every progress-meter increment (= one more signature computed),
+         return of calc_file_signatures                      -> kills before / during / after the calculation
+  store  h5py File.__init__, AttributeManager.__setitem__, Group.create_dataset, Dataset.__setitem__,
+         File.__exit__, counted from the START of the command  -> kills at every storage-call boundary of
+         whatever the command writes, whenever it writes it
+Checked per case, on OUT only: if OUT exists after the kill and load_signatures(OUT) succeeds, it holds
+exactly the k-mer spec, signatures (harness's own naive_signature of the FASTA text), ids and metadata
+requested; a refusal or a missing file is fine.  A run whose kill point is never reached completes and
+must load as requested."""
 import json
 import os
+import shutil
+import signal
 
 from harness import c12
 
@@ -21,15 +39,29 @@ PROP = 'C19'
 RULE = ('crash: (collection, boundary n) -> writer killed after n storage-library calls -> load_signatures on the '
         'remains; non-trivial: n >= 10 (marker and metadata attributes already written, i.e. the file would be '
         'accepted if its metadata had reached the disk) or the completed write of a collection with >= 2 '
-        'signatures of different lengths')
+        'signatures of different lengths'
+        ' | cli_kill: (k, prefix, FASTA genomes, ids/metadata options, cores, progress, file-list channel, kill point) -> '
+        '`gambit signatures create -o OUT` in a child process killed before the j-th calc event (before/during/after the '
+        'signature calculation) or before the j-th storage-library call of the whole command -> OUT absent, refused by '
+        'load_signatures, or loaded exactly as requested; non-trivial: >= 2 genomes with different non-empty signatures and '
+        'the kill came after the command entered the signature calculation or made a storage call (or the run completed)')
 TRUSTED = ['libhdf5 / OS durability: nothing parseable reaches the disk before close (policy AtClose of '
            'Model/Store.v) -- an assumption of the theorems, observed by this enumeration at every boundary',
            'h5py call interception in the child process (AttributeManager.__setitem__, Group.create_dataset, '
            'Dataset.__setitem__, File.__exit__) sees every storage call HDF5Signatures.create makes',
-           'os._exit models process death (no atexit handlers, no libhdf5 shutdown flush)'] + c12.TRUSTED[:1]
+           'os._exit models process death (no atexit handlers, no libhdf5 shutdown flush)',
+           'cli_kill: os._exit / SIGKILL of the command\'s main process followed by SIGKILL of its process group models the death '
+           'of the writer (worker processes of the pool never touch OUT); the hooks (wrapper around every binding of '
+           'gambit.sigs.calc.calc_file_signatures, increment of the progress-meter classes, the h5py entry points) are installed '
+           'by the harness inside the child only and observe, they do not change what the command does; the expected content is '
+           'the harness\'s own naive_signature of the FASTA text it wrote (C06/C12 cli establish that the completed command '
+           'writes it)'] + c12.TRUSTED[:1]
 ASSUMPTIONS = ['the writer is killed between two storage-library calls (a kill inside libhdf5 while it writes raw '
                'chunk data is not enumerated)',
-               'no explicit flush and no SWMR mode: HDF5Signatures.create / dump_signatures_hdf5 as in the repository'] + c12.ASSUMPTIONS[:2]
+               'no explicit flush and no SWMR mode: HDF5Signatures.create / dump_signatures_hdf5 as in the repository',
+               'cli_kill: OUT does not exist before the command starts (an older file left in place by a writer that died before '
+               'touching OUT is not a partial file); kills are placed at calc events and storage-library call boundaries of the '
+               'command\'s main process, not at arbitrary instructions'] + c12.ASSUMPTIONS[:2]
 BATCH = 40
 SHRINK = False
 
@@ -271,7 +303,219 @@ def _bounds(sigs):
 	return b
 
 
-KINDS = {'crash': k_crash}
+# ---- the command `gambit signatures create` as the writer ---------------------------------------------------------
+
+KILL_EXIT = 17
+
+
+def cli_child_main(args, at, kill, logfd):
+	"""runs in the forked child: install the counting hooks, run the click command, die before the j-th event of a class"""
+	import sys
+	import h5py
+	import gambit.cli
+	import gambit.sigs.calc as calc
+	import gambit.util.progress as gprog
+	os.setpgid(0, 0)
+	null = os.open(os.devnull, os.O_RDWR)
+	for fd in (0, 1, 2):
+		os.dup2(null, fd)
+	main = os.getpid()
+	seen = {'calc': 0, 'store': 0}
+
+	def gate(cls):
+		"""called immediately before an event of class cls (main process of the command only)"""
+		if os.getpid() != main:
+			return False
+		if at is not None and at[0] == cls and seen[cls] == at[1]:
+			if kill == 'sigkill':
+				os.kill(main, signal.SIGKILL)
+				while True:
+					signal.pause()
+			os._exit(KILL_EXIT)
+		return True
+
+	def log(cls, what):
+		os.write(logfd, (json.dumps([cls, what]) + '\n').encode())
+		seen[cls] += 1
+
+	def hooked(cls, what, fn):
+		def w(*a, **kw):
+			mine = gate(cls)
+			r = fn(*a, **kw)
+			if mine:
+				log(cls, what if isinstance(what, str) else what(*a, **kw))
+			return r
+		return w
+
+	# calc events: entry / return of calc_file_signatures (every binding of the function in a gambit module) ...
+	real = calc.calc_file_signatures
+
+	def calc_file_signatures(*a, **kw):
+		if gate('calc'):
+			log('calc', 'enter')
+		r = real(*a, **kw)
+		if gate('calc'):
+			log('calc', 'return')
+		return r
+
+	for name, mod in list(sys.modules.items()):
+		if (name == 'gambit' or name.startswith('gambit.')) and mod is not None:
+			for attr, val in list(vars(mod).items()):
+				if val is real:
+					setattr(mod, attr, calc_file_signatures)
+	# ... and every increment of a progress meter (one more signature is there)
+	for cls in [c for c in vars(gprog).values() if isinstance(c, type) and issubclass(c, gprog.AbstractProgressMeter)
+	            and 'increment' in vars(c) and not getattr(c.increment, '__isabstractmethod__', False)]:
+		cls.increment = hooked('calc', 'signature', cls.increment)
+	# store events
+	h5py.File.__init__ = hooked('store', lambda self, name, mode='r', *a, **kw: f'open {mode}', h5py.File.__init__)
+	h5py.AttributeManager.__setitem__ = hooked('store', lambda self, name, value: f'attr {name}', h5py.AttributeManager.__setitem__)
+	h5py.Group.create_dataset = hooked('store', lambda self, name, *a, **kw: f'create {name}', h5py.Group.create_dataset)
+	h5py.Dataset.__setitem__ = hooked('store', lambda self, *a: f'write {self.name}', h5py.Dataset.__setitem__)
+	h5py.File.__exit__ = hooked('store', 'close', h5py.File.__exit__)
+	try:
+		gambit.cli.cli.main(args=args, prog_name='gambit', standalone_mode=False)
+	except SystemExit as e:
+		os._exit(0 if e.code in (None, 0) else 5)
+	os._exit(0)
+
+
+def run_cli_writer(args, at, kill, logpath):
+	"""-> (exit code of the child (negative: signal), events that completed in its main process)"""
+	logfd = os.open(logpath, os.O_WRONLY | os.O_CREAT | os.O_TRUNC, 0o600)
+	pid = os.fork()
+	if pid == 0:
+		try:
+			cli_child_main(args, at, kill, logfd)
+		except BaseException as e:
+			try:
+				os.write(logfd, (json.dumps(['EXC', repr(e)]) + '\n').encode())
+			finally:
+				os._exit(3)
+		os._exit(4)
+	os.close(logfd)
+	_, st = os.waitpid(pid, 0)
+	try:
+		# the pool workers die with the command (own process group, see cli_child_main)
+		os.killpg(pid, signal.SIGKILL)
+	except (ProcessLookupError, PermissionError):
+		pass
+	with open(logpath) as f:
+		events = [json.loads(l) for l in f if l.strip()]
+	return os.waitstatus_to_exitcode(st), events
+
+
+def cli_setup(c, d):
+	"""writes the input files of one case under d -> (args, out, what OUT must hold if it loads)"""
+	width = c.get('width')
+	names = []
+	for i, contigs in enumerate(c['genomes']):
+		names.append(f'g{i}.fasta')
+		with open(os.path.join(d, names[-1]), 'w') as f:
+			for j, s in enumerate(contigs):
+				f.write(f'>c{j} contig {j}\n')
+				for p in range(0, len(s), width or max(len(s), 1)):
+					f.write(s[p:p + (width or len(s))] + '\n')
+	out = os.path.join(d, 'out.gs')
+	args = ['signatures', 'create', '-k', str(c['k']), '-p', c['prefix'], '-o', out, '-c', str(c.get('cores', 1)),
+	        '--progress' if c.get('progress') else '--no-progress']
+	if c.get('ids') is not None:
+		with open(os.path.join(d, 'ids.txt'), 'w') as f:
+			f.write(''.join(x + '\n' for x in c['ids']))
+		args += ['-i', os.path.join(d, 'ids.txt')]
+	if c.get('meta') is not None:
+		with open(os.path.join(d, 'meta.json'), 'w') as f:
+			json.dump(c['meta'], f)
+		args += ['-m', os.path.join(d, 'meta.json')]
+	if c.get('via') == 'listfile':
+		with open(os.path.join(d, 'files.txt'), 'w') as f:
+			f.write(''.join(x + '\n' for x in names))
+		args += ['-l', os.path.join(d, 'files.txt'), '--ldir', d]
+	else:
+		args += [os.path.join(d, x) for x in names]
+	meta = dict(id=None, name=None, id_attr=None, version=None, description=None, extra={})
+	meta.update(c.get('meta') or {})
+	want = dict(kspec=[c['k'], c['prefix']], sigs=[c12.naive_signature(c['k'], c['prefix'], g) for g in c['genomes']],
+	            ids=list(c['ids']) if c.get('ids') is not None else [f'g{i}' for i in range(len(names))], meta=meta)
+	return args, out, want
+
+
+def cli_differences(got, want):
+	"""the observables the property constrains: k-mer spec, signatures, ids, metadata"""
+	bad = []
+	if got['kspec'] != want['kspec']:
+		bad.append(f'k-mer spec {got["kspec"]} instead of {want["kspec"]}')
+	if len(got['sigs']) != len(want['sigs']):
+		bad.append(f'holds {len(got["sigs"])} signatures instead of {len(want["sigs"])}')
+	else:
+		bad += [f'signature {i} is {g[:20]} ({len(g)} values) instead of {w[:20]} ({len(w)} values)'
+		        for i, (g, w) in enumerate(zip(got['sigs'], want['sigs'])) if g != w][:3]
+	if got['ids'] != want['ids']:
+		bad.append(f'ids {got["ids"]!r} instead of {want["ids"]!r}')
+	bad += [f'meta.{f} = {got["meta"][f]!r} instead of {want["meta"][f]!r}' for f in want['meta'] if got['meta'][f] != want['meta'][f]]
+	return bad
+
+
+def k_cli_kill(ctx, cases):
+	# imported here so that every forked child inherits the loaded modules instead of importing them again
+	import gambit.cli
+	import gambit.sigs.calc
+	import gambit.util.progress
+	import Bio.SeqIO
+	from gambit.sigs import load_signatures
+	for c in cases:
+		d = c12.tmp('clikill')
+		os.makedirs(d)
+		try:
+			args, out, want = cli_setup(c, d)
+			at, kill = c.get('at'), c.get('kill', 'exit')
+			code, events = run_cli_writer(args, at, kill, os.path.join(d, 'events.log'))
+			exists = os.path.exists(out)
+			size = os.path.getsize(out) if exists else None
+			if exists:
+				try:
+					with load_signatures(out) as s:
+						got = ('ok', dict(kspec=[int(s.kmerspec.k), s.kmerspec.prefix_str], sigs=[[int(v) for v in x] for x in s],
+						                  ids=[x if isinstance(x, str) else int(x) for x in s.ids], meta={f: getattr(s.meta, f) for f in want['meta']}))
+				except Exception as e:
+					got = ('err', c12.errname(e))
+			else:
+				got = ('absent',)
+		finally:
+			shutil.rmtree(d, ignore_errors=True)
+		killed = code == (-signal.SIGKILL if kill == 'sigkill' else KILL_EXIT)
+		done = [e for e in events if e[0] in ('calc', 'store')]
+		started = bool(done)
+		distinct = {tuple(x) for x in want['sigs'] if x}
+		ctx.case(c, nontrivial=len(distinct) >= 2 and (code == 0 or (killed and started)))
+		trail = ', '.join(f'{e[0]}:{e[1]}' for e in done[-4:]) or 'nothing'
+		if events and events[-1][0] == 'EXC':
+			ctx.broke('fault injection cli_kill (the command raised in the child)', f'{events[-1]} at {at}: {c}')
+			continue
+		if code == 0:
+			# the kill point was never reached (at = null, or beyond the last event of its class): a completed write
+			if got[0] != 'ok':
+				ctx.broke('cli_kill control (a completed `gambit signatures create` left no loadable file)', f'{got} after {len(done)} events: {c}')
+				continue
+			bad = cli_differences(got[1], want)
+			if bad:
+				ctx.violation('cli_kill', c, f'the file of a completed `gambit signatures create` loads, but not as what was requested: {"; ".join(bad)}',
+				              impl=got[1], spec=want)
+			continue
+		if not killed or at is None:
+			ctx.broke('fault injection cli_kill', f'child exit {code} at {at} after [{trail}]: {c}')
+			continue
+		# ---- the property: what a killed writer leaves is absent, refused, or exactly what was requested
+		if got[0] == 'ok':
+			bad = cli_differences(got[1], want)
+			if bad:
+				ctx.violation('cli_kill', c, f'`gambit signatures create` killed ({kill}) before {at[0]} event {at[1]} (completed before the kill: '
+				              f'{len(done)} events, last [{trail}]) left an output file ({size} bytes) that load_signatures ACCEPTS as a '
+				              f'different collection: {"; ".join(bad)}', impl=got[1], spec=dict(want, note='or absent / refused'),
+				              events=[f'{e[0]}:{e[1]}' for e in done])
+
+
+KINDS = {'crash': k_crash, 'cli_kill': k_cli_kill}
 
 
 def n_calls(coll):
@@ -319,3 +563,57 @@ def generate(ctx):
 		for n in points:
 			ctx.count('stream:large-payload')
 			yield 'crash', dict(coll=coll, n=n, short=True)
+	yield from gen_cli_kill(ctx, rng)
+
+
+def rgenome(rng, prefix, k):
+	"""1..3 contigs of a few hundred bases (mixed case, some N), the prefix planted a few times"""
+	contigs = []
+	for _ in range(rng.randint(1, 3)):
+		s = [rng.choice('ACGTacgt' * 6 + 'N') for _ in range(rng.randint(60, 320))]
+		for _ in range(rng.randint(1, 4)):
+			p = rng.randrange(0, len(s) - len(prefix) - k)
+			s[p:p + len(prefix)] = prefix
+		contigs.append(''.join(s))
+	return contigs
+
+
+def cli_points(ngenomes, slack):
+	"""every kill point of one command: before each calc event (enter, one per genome, return) and before each storage-library
+	call of the command (open, 14 + n calls of the per-signature write path, 3 File objects h5py makes for open handles, close
+	= 19 + n on the unchanged code; `slack` further ones for whatever else the command stores; points beyond the last event
+	are completed writes), and none"""
+	return [['calc', j] for j in range(ngenomes + 2)] + [['store', j] for j in range(19 + ngenomes + slack)] + [None]
+
+
+def gen_cli_kill(ctx, rng):
+	meta = dict(id='db/é', name='漢 set', version='1.0', id_attr='key', description='two\nlines', extra={'author': 'x', 'nested': {'a': [1, None]}})
+	# ---- every kill point of two fixed-shape commands (genomes drawn from the seed)
+	shapes = [dict(k=7, prefix='AT', n=3, ids=['s-00', 'é1', '漢 2'], meta=meta, cores=1, progress=False, via='args', kill='exit', width=60),
+	          dict(k=11, prefix='ATG', n=2, ids=None, meta=None, cores=2, progress=True, via='listfile', kill='sigkill', width=None)]
+	for sh in shapes:
+		base = {f: v for f, v in sh.items() if f != 'n'}
+		base['genomes'] = [rgenome(rng, sh['prefix'], sh['k']) for _ in range(sh['n'])]
+		for at in cli_points(sh['n'], ctx.pick(3, 20)):
+			ctx.count('stream:cli-kill-every-point')
+			yield 'cli_kill', dict(base, at=at)
+	ctx.extra['exhaustive_scope'] += ('; cli_kill: for two `gambit signatures create` commands every kill point of the command\'s main process: '
+	                                 'before each calc event (entry, one per genome, return) and before each storage-library call from the '
+	                                 'start of the command up to the close of the final write')
+	# ---- random commands (k, prefix, 1..4 genomes incl. empty ones, ids / metadata / cores / progress / file-list channel / kind
+	# of death), a few kill points each: always one inside the calculation and one right after it
+	for _ in range(ctx.pick(10, 120)):
+		k = rng.choice([5, 6, 8, 9, 11, 12, 16])   # the command refuses k < 5
+		prefix = ''.join(rng.choice('ACGT') for _ in range(rng.randint(2, 4)))   # the command refuses a prefix shorter than 2
+		n = rng.randint(1, 4)
+		genomes = [rgenome(rng, prefix, k) if rng.random() < 0.9 else [''] for _ in range(n)]
+		base = dict(k=k, prefix=prefix, genomes=genomes,
+		            ids=None if rng.random() < 0.4 else [f'{rng.choice(["id", "é", "漢", "G"])}{i}' for i in range(n)],
+		            meta=None if rng.random() < 0.4 else dict(id=c12.rstr(rng), name='n', version='1.0', id_attr='key', description=c12.rstr(rng),
+		                                                      extra={'author': c12.rstr(rng), 'n': [1, None]}),
+		            cores=rng.choice([1, 2, 3]), progress=rng.random() < 0.5, via=rng.choice(['args', 'listfile']),
+		            kill=rng.choice(['exit', 'sigkill']), width=rng.choice([None, 1, 70]))
+		pts = cli_points(n, 0)
+		for at in [['calc', rng.randint(1, n)], ['calc', n + 1]] + rng.sample(pts, ctx.pick(2, 8)):
+			ctx.count('stream:cli-kill-random')
+			yield 'cli_kill', dict(base, at=at)
